@@ -376,6 +376,17 @@ def parseEFile (args : List String) : Option EFile :=
 
 def stepEnc (s : St) (line : String) : Option (St × String) :=
   match line.trimAscii.toString.splitOn " " with
+  | "f.validate" :: args =>
+    match unhex ((kv args "file").getD "-"), unhex ((kv args "pre").getD "-") with
+    | some body, some pre =>
+      let algo := kvNat args "comp" 0
+      let ctab := s.ctab
+      let minbs := kvNat args "minbs" 1024
+      let bs := kvNat args "bs" 8192
+      let effBs := if bs < minbs then minbs else bs
+      let comp := fun raw => ((compOf ctab algo raw).getD raw)
+      some (s, "valid " ++ validateFile (kvNat args "ri" 16) effBs (kvNat args "thr" 4294967295) comp (decompOf ctab) pre (pre ++ body))
+    | _, _ => none
   | "enc.raw" :: args =>
     (parseEFile args).map fun f => (s, "raws " ++ " ".intercalate (f.blocks.map fun b => hex (b.encode f.thr)))
   | "enc.legal" :: args =>
@@ -429,6 +440,45 @@ def stepWa (s : St) (line : String) : Option (St × String) :=
         let r := writeMany (fileBuffers bytes) script {}
         let calls := ",".intercalate (r.calls.map fun c => toString c.2)
         some (s, (if r.ok then "ok" else "abort") ++ " file=" ++ hex r.accepted ++ " calls=" ++ calls)
+  | _ => none
+
+/-! corrupted files: the verify tool and a verifying reader (C12) -/
+partial def drainReader (fix : Bool) (it : RIter) (n : Nat) (last : Option Bytes) : Nat × Option Bytes × String :=
+  match rNext fix it with
+  | none => (n, last, "abort")
+  | some (none, _) => (n, last, "eof")
+  | some (some e, it') => drainReader fix it' (n + 1) (some e.key)
+
+def stepVerify (s : St) (line : String) : Option (St × String) :=
+  match line.trimAscii.toString.splitOn " " with
+  | ["tool.verify", bid] =>
+    match bid.toNat?.bind (s.blobs[·]?) with
+    | some file =>
+      match verifyTool 4294967295 (decompOf s.ctab) file with
+      | .ok => some (s, "verify OK exit=0")
+      | .failed => some (s, "verify FAILED exit=1")   -- (an open that returns NULL prints no verdict line: canonicalised by the orchestrator)
+      | .abort => some (s, "verify none abort")
+      | .oob => some (s, "verify none oob")
+    | none => none
+  | "rv.read" :: bid :: args =>
+    match bid.toNat?.bind (s.blobs[·]?) with
+    | some file =>
+      match readerOpen s.fixF9 4294967295 (decompOf s.ctab) (kvNat args "verify" 1 == 1) file with
+      | .null => some (s, "read 0 - null")
+      | .abort _ => some (s, "read 0 - abort")
+      | .oob _ => some (s, "read 0 - oob")
+      | .ok r =>
+        let gk := (kv args "get").bind unhex
+        let init := match gk with
+          | some k => readerIterInit s.fixF1 r (some k) (.get k)
+          | none => readerIterInit s.fixF1 r none .iter
+        match init with
+        | none => some (s, "read 0 - abort")
+        | some none => some (s, "read 0 - eof")
+        | some (some it) =>
+          let (n, last, how) := drainReader s.fixF1 it 0 none
+          some (s, "read " ++ toString n ++ " " ++ (match last with | some k => hex k | none => "-") ++ " " ++ how)
+    | none => none
   | _ => none
 
 def stepMore (s : St) (line : String) : St × String :=
@@ -503,7 +553,9 @@ def stepMore (s : St) (line : String) : St × String :=
             | some r => r
             | none => match stepWa s line with
               | some r => r
-              | none => (s, "bad-op")
+              | none => match stepVerify s line with
+                | some r => r
+                | none => (s, "bad-op")
 
 def step (s : St) (line : String) : St × String :=
   match line.trimAscii.toString.splitOn " " with
